@@ -140,7 +140,10 @@ def build_pair(make_multi, make_ref, data, what):
                             f'({shape_of(r)} vs {shape_of(res["ref"])})', None, data('result-shape'))
     elif isinstance(r, list):
         raise Violation(f'{what}: scalar/tuple arguments were expanded', None, data('result-shape'))
-    if a['ugens'] != b['ugens'] or a['consts'] != b['consts']:
+    def canon(d):
+        # constants by value: the order of the constant table is an encoding detail, not part of the law
+        return [dict(u, ins=[('c', d['consts'][k]) if src == -1 else (src, k) for src, k in u['ins']]) for u in d['ugens']]
+    if canon(a) != canon(b) or sorted(a['consts']) != sorted(b['consts']):
         na, nb = len(a['ugens']), len(b['ugens'])
         raise Violation(f'{what}: expanded call compiles to {na} units {[u["cls"] for u in a["ugens"]][:8]}, the '
                         f'single-channel calls to {nb} units {[u["cls"] for u in b["ugens"]][:8]} (or different '
